@@ -231,12 +231,13 @@ class Ctx:
         detail: Optional[Dict[str, Any]] = None,
         sample: Any = None,
         nontrivial: bool = True,
+        at: Optional[Tuple[str, int]] = None,
     ) -> bool:
         """Register one rule instance. ``ok`` False => a finding."""
         if rule not in self.rules:
             raise AnalysisError(f"internal: rule {rule} not declared")
         self.instances.append(Instance(rule, where, construct, bool(ok), nontrivial))
-        file, line = self.loc(node)
+        file, line = self.loc(node) if at is None else at
         if self._sample_rules.get(rule, 0) < 3:
             self._sample_rules[rule] = self._sample_rules.get(rule, 0) + 1
             self.samples.append(
@@ -266,10 +267,11 @@ class Alias:
     Used where two properties share a structural clause (e.g. HTTP/2 wake-up pairing is a necessary
     condition of C09 liveness, of C08 "pressure abates => send returns" and of C02 delivery)."""
 
-    def __init__(self, ctx: "Ctx", rule: str, text: str, only=None) -> None:
+    def __init__(self, ctx: "Ctx", rule: str, text: str, only=None, where=None) -> None:
         self._ctx = ctx
         self._rule = rule
         self._only = only
+        self._where = where
         ctx.rule(rule, text, floor=1)
 
     def __getattr__(self, name):
@@ -281,10 +283,12 @@ class Alias:
     def assume(self, text: str) -> None:
         pass
 
-    def check(self, rule, where, construct, ok, what="", node=None, detail=None, sample=None, nontrivial=True):
+    def check(self, rule, where, construct, ok, what="", node=None, detail=None, sample=None, nontrivial=True, at=None):
         if self._only is not None and rule not in self._only:
             return bool(ok)
-        return self._ctx.check(self._rule, where, f"{rule}: {construct}", ok, what, node, detail, sample, nontrivial)
+        if self._where is not None and not any(w in where for w in self._where):
+            return bool(ok)
+        return self._ctx.check(self._rule, where, f"{rule}: {construct}", ok, what, node, detail, sample, nontrivial, at)
 
 
 # --------------------------------------------------------------------------- known findings
